@@ -26,7 +26,8 @@ func (c14) Meta() fw.Meta {
 			"values over float64 bit-pattern classes (+-0, denormals, +-Inf, quiet/signalling NaNs with payloads, random bits); for each object: decode(encode(x)) - into a destination that already holds an older object - bit-equal with empty remainder; decode(encode(x)++tail) leaves a remainder that is byte-equal to tail and the input bytes behind the message untouched; " +
 			"2-5 concatenated messages decode in sequence; EVERY proper prefix (all of them up to 2 KiB, boundaries +-2 and 64 random cuts above) yields *WantLargerBufferError with len(prefix) < wanted <= len(encoding) and the grow-to-wanted retry loop succeeds within 4 rounds. " +
 			"non-trivial = object with a non-empty payload (>= 1 value/point/archive) whose prefixes were all checked; distinct by encoding bytes." +
-			" Every object is also appended onto a non-empty destination (with and without spare capacity): the result must be the old bytes followed by the encoding.",
+			" Every object is also appended onto a non-empty destination (with and without spare capacity): the result must be the old bytes followed by the encoding." +
+			" While a decoded object is compared with the original, the bytes it was decoded from are inverted (and restored afterwards).",
 		Assumptions: []string{
 			"time series domain: step >= 1 and len(values) == uint32(until-from)/step (the count is not transmitted), or the all-zero absent series",
 			"headers: layouts accepted by NewHeader (C07 decides which those are)",
